@@ -128,6 +128,54 @@ std::string handle(const std::string& op, Args& a)
 		}
 		return res;
 	}
+	if(op == "c12.reent")
+	{
+		// re-entrancy: the integrand of overload 1 calls overload 1 with limits depending on the outer variable
+		unsigned nO = a.u64(), nI = a.u64();
+		double x0 = a.dbl(), x1 = a.dbl(), l0 = a.dbl(), l1 = a.dbl(), h0 = a.dbl(), h1 = a.dbl();
+		size_t k = a.u64();
+		std::vector<double> cs(k);
+		std::vector<int> is(k), js(k);
+		for(size_t t = 0; t < k; t++)
+		{
+			cs[t] = a.dbl();
+			is[t] = a.i64();
+			js[t] = a.i64();
+		}
+		a.end();
+		auto ipow = [](double x, int n) { double r = 1.0; for(int i = 0; i < n; i++) r *= x; return r; };
+		auto g	  = [&](double x, double y) { double r = 0.0; for(size_t t = 0; t < k; t++) r += cs[t] * ipow(x, is[t]) * ipow(y, js[t]); return r; };
+		return run_forked([&](Out& o) {
+			// (1) overload (func,a,b,n) at both levels
+			double v1 = Integrate_Gauss_Legendre([&](double x) {
+				return Integrate_Gauss_Legendre([&](double y) { return g(x, y); }, l0 + l1 * x, h0 + h1 * x, nI);
+			}, x0, x1, nO);
+			// (2) overload (func, rule) with explicitly computed rules at both levels
+			auto rule_out = Compute_Gauss_Legendre_Roots_and_Weights(nO, x0, x1);
+			double v2	  = Integrate_Gauss_Legendre([&](double x) {
+				auto rule_in = Compute_Gauss_Legendre_Roots_and_Weights(nI, l0 + l1 * x, h0 + h1 * x);
+				return Integrate_Gauss_Legendre([&](double y) { return g(x, y); }, rule_in);
+			}, rule_out);
+			// (3) overload (values, rule)
+			std::vector<double> outer_values;
+			for(auto& p : rule_out)
+			{
+				double x	 = p[0];
+				auto rule_in = Compute_Gauss_Legendre_Roots_and_Weights(nI, l0 + l1 * x, h0 + h1 * x);
+				std::vector<double> fv;
+				for(auto& q : rule_in)
+					fv.push_back(g(x, q[0]));
+				outer_values.push_back(Integrate_Gauss_Legendre(fv, rule_in));
+			}
+			double v3 = Integrate_Gauss_Legendre(outer_values, rule_out);
+			// (4) mixed: overload 1 outside, explicit rule inside; and the reverse
+			double v4 = Integrate_Gauss_Legendre([&](double x) {
+				auto rule_in = Compute_Gauss_Legendre_Roots_and_Weights(nI, l0 + l1 * x, h0 + h1 * x);
+				return Integrate_Gauss_Legendre([&](double y) { return g(x, y); }, rule_in);
+			}, x0, x1, nO);
+			o << v1 << v2 << v3 << v4;
+		});
+	}
 	if(op == "c12.sumvals")
 	{
 		auto v	= a.dbls();
